@@ -31,7 +31,26 @@ def needed(m, s):
 
 
 def is_neg_zero(j):
-    return bool(j["n"]) and int(j["m"]) == 0
+    return isinstance(j, dict) and bool(j["n"]) and int(j["m"]) == 0
+
+
+class Unexpected(Exception):
+    """the price conversion applied by the implementation is not the one the case was built for
+    (C07's subject): the case is skipped, never reported"""
+
+
+TARGET_COMM = "EUR"
+
+
+def converted(c, comm, amount):
+    """(commodity, exact amount as (mantissa, scale)) of a posting under the price conversion of the case:
+    amount x rate computed exactly here, independently of the implementation's engine"""
+    m, s = dec_parts(amount)
+    rates = c.get("rates") or {}
+    if comm and comm != TARGET_COMM and comm in rates:
+        rm, rs = rates[comm]
+        return TARGET_COMM, (m * rm, s + rs)
+    return comm, (m, s)
 
 
 # ------------------------------------------------------------------ value level
@@ -225,12 +244,46 @@ def rep_cases(run, n):
         g = J.Gen(r, max_depth=3, n_accounts=r.randint(2, 6), comms=r.sample(["", "EUR", "He·bar", "€"], r.randint(1, 2)))
         g.amount = amount_gen(r, smin, smax, overflow=over)
         ts = g.journal(r.randint(1, 2) if over else r.randint(1, 5), prices=False, meta=False, implicit_p=0.3)
+        if not over and r.random() < 0.15:
+            out.append(price_case(r))
+            continue
         sel = []
         if r.random() < 0.4:                # listed accounts only: the deltas are then not zero
             sel = r.sample(g.accounts, min(len(g.accounts), r.randint(1, 3)))
         out.append({"kind": "rep", "smin": smin, "smax": smax, "text": J.print_journal(ts), "sel": sel,
                     "tag": "overflow" if over else "gen"})
     return out
+
+
+def price_case(r):
+    """report commodity + price db: converted amounts are products with long tails; narrow scales;
+    several postings to the same account in one commodity"""
+    smin, smax = r.choice([(2, 2), (0, 0), (2, 7), (2, 2)])
+    lt = r.choice(["last-price", "txn-time"])
+    foreign = r.sample(["XAU", "USD", "ACME"], r.randint(1, 2))
+    rates = {}
+    for f in foreign:
+        if r.random() < 0.85:               # a commodity without a price stays unconverted
+            sc = r.randint(3, 6)
+            rates[f] = [r.choice([333, 3333, 125, 1005, 66667, r.randint(1, 10 ** r.randint(3, 6))]), sc]
+    if not rates:
+        rates[foreign[0]] = [333, 3]
+    pricedb = "".join("P 2000-01-01 %s %s %s\n" % (f, J.dec_str(m, sc), TARGET_COMM) for f, (m, sc) in sorted(rates.items()))
+    g = J.Gen(r, max_depth=2, n_accounts=r.randint(2, 3), comms=foreign + r.sample([TARGET_COMM, ""], r.randint(0, 2)))
+
+    def amount():
+        k = r.random()
+        sg = r.choice([1, -1])
+        if k < 0.4:
+            return (sg * r.choice([5, 25, 15, 1, 3, 7]), r.choice([0, 1, 1, 2]))
+        if k < 0.7:
+            return (sg * r.randint(1, 5000), r.randint(0, 3))
+        return (sg * r.randint(1, 10 ** 6), r.randint(0, 5))
+    g.amount = amount
+    ts = g.journal(r.randint(3, 7), prices=False, meta=False, implicit_p=0.3)
+    sel = r.sample(g.accounts, 1) if r.random() < 0.25 else []
+    return {"kind": "rep", "smin": smin, "smax": smax, "text": J.print_journal(ts), "sel": sel, "tag": "prices",
+            "pricedb": pricedb, "lt": lt, "rates": rates}
 
 
 class ParseError(Exception):
@@ -273,14 +326,16 @@ def parse_balance_block(lines, pos, bal, figs, sums, selected=False):
     return pos
 
 
-def parse_balance(text, bal, txns, selected=False):
+def parse_balance(text, bal, txns, selected=False, c=None):
     lines = text.split("\n")
     figs, sums = [], []
     pos = find_title(lines, "BAL")
     parse_balance_block(lines, pos, bal, figs, sums, selected)
     # own sums are the sums of the unrounded posting amounts
+    # (under a price conversion: of the exactly converted amounts, amount x rate)
+    posts = [(p["acc"],) + converted(c or {}, p["comm"], p["amount"]) for t in txns for p in t["posts"]]
     for row in bal["rows"]:
-        sums.append((row["own"], [p["amount"] for t in txns for p in t["posts"] if p["acc"] == row["acc"] and p["comm"] == row["comm"]]))
+        sums.append((row["own"], [a for (acc, comm, a) in posts if acc == row["acc"] and comm == row["comm"]]))
     return figs, sums
 
 
@@ -295,7 +350,7 @@ def parse_balgrp(text, groups, selected=False):
     return figs, sums
 
 
-def parse_register(text, entries):
+def parse_register(text, entries, c=None):
     lines = text.split("\n")
     figs, sums = [], []
     pos = find_title(lines, "REG")
@@ -314,13 +369,31 @@ def parse_register(text, entries):
             if not line.startswith(pre):
                 raise ParseError("register row %r does not start with %r" % (line, pre))
             tok = line[len(pre):].split()
-            want = 3 if row["target"] else 2
-            if len(tok) != want or (row["target"] and tok[2] != row["target"]):
-                raise ParseError("register row %r: unexpected columns" % line)
+            # <amount> [<commodity> [@ <rate>]] <running total> [<target commodity>]
+            if row["target"]:
+                if len(tok) < 3 or tok[-1] != row["target"]:
+                    raise ParseError("register row %r: target commodity %r expected" % (line, row["target"]))
+                mid, total_txt = tok[1:-2], tok[-2]
+            else:
+                if len(tok) < 2:
+                    raise ParseError("register row %r: unexpected columns" % line)
+                mid, total_txt = tok[1:-1], tok[-1]
+            if not (mid == [] or mid == [row["comm"]] or (len(mid) == 3 and mid[0] == row["comm"] and mid[1] == "@")):
+                raise ParseError("register row %r: unexpected columns %r" % (line, mid))
+            tcomm, part = converted(c or {}, row["comm"], row["amount"])
+            if tcomm != row["target"]:
+                raise Unexpected("posting in %r reported in %r, expected %r" % (row["comm"], row["target"], tcomm))
+            if row.get("rate") is not None and tcomm != row["comm"]:
+                rm, rs = dec_parts(row["rate"])
+                em, es = c["rates"][row["comm"]]
+                if rm * 10 ** es != em * 10 ** rs:
+                    raise Unexpected("rate %r used for %r" % (row["rate"], row["comm"]))
+            row["_part"] = part
             seen.append(row)
             figs.append((row["amount"], tok[0], False, "amount of %s" % row["acc"]))
-            figs.append((row["total"], tok[1], False, "running total of %s" % row["acc"]))
-            sums.append((row["total"], [x["amount"] for x in seen if x["acc"] == row["acc"] and x["comm"] == row["comm"]]))
+            figs.append((row["total"], total_txt, False, "running total of %s %s" % (row["acc"], row["target"])))
+            # the running total is the exact sum of the unrounded (converted) amounts so far
+            sums.append((row["total"], [x["_part"] for x in seen if x["acc"] == row["acc"] and x["target"] == row["target"]]))
         if not re.match(r"^-+$", lines[pos]):
             raise ParseError("register ruler expected: %r" % lines[pos])
         pos += 1
@@ -332,10 +405,15 @@ def rep_requests(cases):
     for c in cases:
         ras = [esc_re(a) for a in c.get("sel") or []]
         acc = (", accounts = " + J.toml_list(ras)) if ras else ""
-        toml = J.make_toml(smin=c["smin"], smax=c["smax"], bal_acc=acc, balgrp_acc=acc)
-        reqs.append({"conf": {"toml": toml}, "inputs": [{"text": c["text"]}],
+        conf = {}
+        kw = {}
+        if c.get("pricedb"):
+            kw = {"price": '[price]\ndb-path = "prices.db"\nlookup-type = "%s"' % c["lt"], "rcomm": 'commodity = "%s"' % TARGET_COMM}
+            conf["pricedb"] = c["pricedb"]
+        conf["toml"] = J.make_toml(smin=c["smin"], smax=c["smax"], bal_acc=acc, balgrp_acc=acc, **kw)
+        reqs.append({"conf": conf, "inputs": [{"text": c["text"]}],
                      "ops": [{"op": "txns"}, {"op": "balance", "ras": ras}, {"op": "text_balance"}, {"op": "balgrp", "ras": ras}, {"op": "text_balgrp"},
-                             {"op": "register"}, {"op": "text_register"}]})
+                             {"op": "register"}, {"op": "text_register"}, {"op": "pricectx"}]})
     return reqs
 
 
@@ -356,8 +434,8 @@ def run_rep(run, cases, st):
         if stg != "done":
             continue
         rs = rr["results"]
-        names = ["txns", "balance", "text_balance", "balgrp", "text_balgrp", "register", "text_register"]
-        pan = [names[i] for i in range(7) if rs[i].get("panic")]
+        names = ["txns", "balance", "text_balance", "balgrp", "text_balgrp", "register", "text_register", "pricectx"]
+        pan = [names[i] for i in range(len(rs)) if rs[i].get("panic")]
         if pan:
             st["rep_panics"] += 1
             run.violation("report operation panics: %s" % ", ".join(pan),
@@ -368,12 +446,29 @@ def run_rep(run, cases, st):
         if not all("ok" in x for x in rs):
             st["rep_op_failed"] += 1
             continue
-        txns, bal, tbal, grp, tgrp, reg, treg = [x["ok"] for x in rs]
+        txns, bal, tbal, grp, tgrp, reg, treg, pctx = [x["ok"] for x in rs]
         try:
             sel = bool(c.get("sel"))
-            parts = [("balance", tbal) + parse_balance(tbal, bal, txns, sel),
+            if c.get("pricedb") and c["lt"] == "last-price":
+                # the fixed rates the implementation reports must be the ones of the price db of the case
+                for rec in pctx:
+                    exp = (c.get("rates") or {}).get(rec["source"])
+                    if rec.get("rate") is None or exp is None or rec["target"] != TARGET_COMM:
+                        raise Unexpected("price record %r" % (rec,))
+                    txt = rec["rate"].split()[0]
+                    if not NUM_RE.match(txt):
+                        raise Unexpected("price record %r" % (rec,))
+                    digits = txt.replace("-", "").replace(".", "")
+                    rs_ = len(txt.split(".")[1]) if "." in txt else 0
+                    if int(digits) * 10 ** exp[1] != exp[0] * 10 ** rs_:
+                        raise Unexpected("price record %r" % (rec,))
+            parts = [("balance", tbal) + parse_balance(tbal, bal, txns, sel, c),
                      ("balance-group", tgrp) + parse_balgrp(tgrp, grp, sel),
-                     ("register", treg) + parse_register(treg, reg)]
+                     ("register", treg) + parse_register(treg, reg, c)]
+        except Unexpected as e:
+            st["conversion_unexpected"] += 1
+            st["conversion_unexpected_example"] = str(e)
+            continue
         except (ParseError, IndexError) as e:
             raise Infra("C17 report text parser does not understand the report (check the parser, not the code): %s" % e)
         for name, text, figs, sums in parts:
@@ -388,6 +483,9 @@ def run_rep(run, cases, st):
                               {"case": c, "report": name, "text": text, "token": bad[1]})
                 continue
             terms.append("c17_rep_case (mkScale %s %s) %s %s" % (g_N(c["smin"]), g_N(c["smax"]), g_list([g_fig(f) for f in figs]), g_sums(sums)))
+            if c.get("pricedb"):
+                st["price_reports"] += 1
+                st["converted_parts"] += sum(1 for t, ps in sums for p_ in ps if isinstance(p_, tuple) and p_[1] > 6)
             out.append({"case": c, "report": name, "text": text, "figs": figs, "sums": sums})
     return out, terms
 
@@ -426,8 +524,20 @@ def judge_rep(run, o, val, st, distinct):
     if bad:
         f = o["figs"][bad - 1]
         figure = {"what": f[3], "exact": J.dec_str(*dec_parts(f[0])), "stored_scale": f[0]["s"], "printed": f[1]}
+    bad_sum = None
+    if not bad and not (bits & 2):
+        # every text is right for its structured figure: then a structured total is not the sum of its unrounded parts
+        from fractions import Fraction
+        val = lambda d: (lambda m, s: Fraction(m, 10 ** s))(*(dec_parts(d) if isinstance(d, dict) else d))
+        for t, ps in o["sums"]:
+            if val(t) != sum((val(p_) for p_ in ps), Fraction(0)):
+                bad_sum = {"total_in_report_data": J.dec_str(*dec_parts(t)),
+                           "unrounded_parts": [J.dec_str(*(dec_parts(p_) if isinstance(p_, dict) else p_)) for p_ in ps],
+                           "exact_sum_of_parts": str(sum((val(p_) for p_ in ps), Fraction(0)))}
+                break
     rep = {"case": c, "scale": {"min": c["smin"], "max": c["smax"]}, "report": o["report"], "journal": c["text"],
-           "listed_accounts": c.get("sel") or "all", "first_bad_figure": figure, "implementation_output": o["text"],
+           "listed_accounts": c.get("sel") or "all", "first_bad_figure": figure, "total_not_sum_of_unrounded_parts": bad_sum,
+           "price_db": c.get("pricedb"), "config": ({"price.lookup-type": c["lt"], "report.commodity": TARGET_COMM} if c.get("pricedb") else None), "implementation_output": o["text"],
            "replay_hint": "tackler --config <toml with report.scale = {min=%d,max=%d}> --input.file <journal> --reports %s" % (c["smin"], c["smax"], o["report"])}
     if not (bits & 2):
         run.violation("%s report shows a figure that is not the exact figure rounded half-away-from-zero to the configured scale "
@@ -455,7 +565,7 @@ def load_corpus():
 
 def check_cases(run, vcases, rcases):
     st = {"val_skipped": 0, "val_outside": 0, "val_tags": {}, "stages": {}, "rep_op_failed": 0, "neg_zero_skipped": 0,
-          "rep_outside": 0, "library_display_panics": 0, "rep_panics": 0, "long_figures": 0, "nonzero_deltas": 0, "figures": 0, "figures_rounded": 0, "figures_midpoint": 0, "negative_shown_as_zero": 0, "scales": {}}
+          "rep_outside": 0, "conversion_unexpected": 0, "price_reports": 0, "converted_parts": 0, "library_display_panics": 0, "rep_panics": 0, "long_figures": 0, "nonzero_deltas": 0, "figures": 0, "figures_rounded": 0, "figures_midpoint": 0, "negative_shown_as_zero": 0, "scales": {}}
     vout, vterms = run_val(run, vcases, st)
     rout, rterms = run_rep(run, rcases, st)
     vals, errs = coq_eval("C17", IMPORTS, vterms + rterms)
@@ -488,7 +598,9 @@ def main(run):
                        "neighbours, trailing zeros, values rounding to zero, carry chains, powers of ten) x decimals 0..28 through "
                        "round_dp_with_strategy(MidpointAwayFromZero) + to_string (+ the library's Display with a precision, panics included); report level: seeded journals (1-5 txns, 1-2 commodities, amounts built "
                        "relative to the configured scale: midpoints, half-midpoints that add up, more decimals than max, fewer than min, stored scale > needed, "
-                       "negatives rounding to zero; 40% with listed accounts so that deltas are not zero) rendered as balance, balance-group and register text under scale (min,max) in "
+                       "negatives rounding to zero; 40% with listed accounts so that deltas are not zero; 15% with report commodity + price db "
+                       "(last-price / txn-time, rates with 3-6 decimals, scales (2,2),(0,0),(2,7)): every own sum and running total is recomputed here as the exact sum of "
+                       "amount x rate and compared with the structured figure and its text) rendered as balance, balance-group and register text under scale (min,max) in "
                        "{(0,0),(2,2),(2,7),(0,28),(28,28),(0,3)} + random + a stream of figures longer than 32 characters (regression F18); every amount column parsed and compared with the model and the oracle; "
                        "non-trivial = the figure needs more decimals than shown; distinct = distinct printed outputs among those")
     run.notes.update({"value_cases_by_kind": st["val_tags"], "value_cases_skipped": st["val_skipped"], "value_cases_outside_domain": st["val_outside"],
@@ -496,6 +608,7 @@ def main(run):
                       "report_figures_rounded": st["figures_rounded"], "report_figures_exact_midpoint": st["figures_midpoint"],
                       "negative_figures_shown_as_zero": st["negative_shown_as_zero"], "nonzero_delta_figures": st["nonzero_deltas"], "reports_skipped_negative_zero_figure": st["neg_zero_skipped"],
                       "reports_outside_domain": st["rep_outside"], "report_ops_failed": st["rep_op_failed"],
+                      "reports_with_price_conversion": st["price_reports"], "conversion_not_as_expected_skipped": st["conversion_unexpected"],
                       "report_panics": st["rep_panics"], "report_figures_longer_than_32_chars": st["long_figures"],
                       "library_display_with_precision_panics_as_modelled": st["library_display_panics"]})
     return run.finish(info)
